@@ -278,6 +278,25 @@ def c18(rep, tier):
                           'what ran earlier on this thread' % (v['name'], v['loc'][0], ev.e['loc'][0]), '%s:%d' % (os.path.relpath(f['file'], repo), ev.e['loc'][0]),
                           witness={'variable': v['name'], 'read_at_line': ev.e['loc'][0]})
     P10.ok('definite assignment', '%d function bodies analysed' % nf10, 'Compiler/src, VM/src')
+    # the syntax tree a caller hands to gen() is the caller's: the generator reads the nodes, it does not move from or write to them
+    for f in facts.functions:
+        if f.get('body') is None or f['tmpl'] == 'pattern' or not f['file'].endswith('gen.cpp'):
+            continue
+        for e in walk_all_exprs(f['body']):
+            hit = None
+            if e.get('k') == 'call' and (e.get('callee') or '').split('<')[0] in ('std::move', 'std::exchange', 'std::swap'):
+                for a in e.get('args', []):
+                    a0 = strip_casts(a)
+                    if a0 is not None and a0.get('k') == 'member' and 'Node' in (strip_casts(a0['base']).get('cty') or ''):
+                        hit = a0
+            if e.get('k') == 'assign':
+                l = strip_casts(e['l'])
+                if l is not None and l.get('k') == 'member' and (strip_casts(l['base']).get('cty') or '').replace('const ', '') in ('Theo::Node *', 'Node *', 'Theo::Node'):
+                    hit = l
+            if hit is not None:
+                P8.violation('%s: %s' % (f['q'].split('::')[-1], show(e)[:50]), 'the generator modifies a node of the syntax tree it was given (%s): a second gen() on the same tree - the tree '
+                             'belongs to the caller - sees another program' % show(hit), '%s:%d' % (os.path.relpath(f['file'], repo), e['loc'][0]),
+                             witness={'calls': 'parse once, gen twice on the same AST'})
     rep.extra['static_objects'] = len([g for g in facts.globals.values() if not g['static_local']])
     rep.extra['external_callees'] = len(ext)
     rep.extra['functions_scanned'] = n_fn
